@@ -372,8 +372,10 @@ func (s *state) dump(step int) string {
 	}
 	top := s.repo.Height() + 1
 	var at []string
+	// heights next to a 1000-header file boundary are always kept: the boundary ranges below are judged against them
+	nearBoundary := func(k int) bool { return k >= 997 && (k%1000 >= 997 || k%1000 <= 3) }
 	for k := s.dumpFrom; k <= top; k++ {
-		if !keepIdx(k-s.dumpFrom, top+1-s.dumpFrom, k) {
+		if !keepIdx(k-s.dumpFrom, top+1-s.dumpFrom, k) && !nearBoundary(k) {
 			continue
 		}
 		hs, err := s.repo.Hash(ctx, k)
@@ -408,6 +410,16 @@ func (s *state) dump(step int) string {
 		full = top - 100
 	}
 	ranges := []string{rng(full, top+2-full), rng(lo, 10), rng(s.dumpFrom+(th-s.dumpFrom)/2, 5)}
+	// ranges across every main-file boundary below the tip (served from storage once pruned), and one from the
+	// stored part into the part held in memory (the smallest prune depth in use is 146)
+	for b := 1000; b < th; b += 1000 {
+		if b-3 >= s.dumpFrom {
+			ranges = append(ranges, rng(b-3, 7))
+		}
+	}
+	if th-160 >= s.dumpFrom {
+		ranges = append(ranges, rng(th-160, 30))
+	}
 	return fmt.Sprintf("%s hh=[%s] ch=[%s] gh=[%s] ph=[%s] at=[%s] rg=[%s]", s.tip(), strings.Join(hh, ","),
 		strings.Join(ch, ","), strings.Join(gh, ","), strings.Join(ph, ","), strings.Join(at, ","), strings.Join(ranges, ";"))
 }
